@@ -1,5 +1,5 @@
 """property id -> check function(prop, tier, seed, replay) -> exit code"""
-from . import checks_civil, checks_conc, checks_fmt, checks_load, checks_misc, checks_zone
+from . import checks_civil, checks_conc, checks_env, checks_fmt, checks_hist, checks_load, checks_misc, checks_zone
 
 CHECKS = {}
 for _p in ("C01", "C02", "C03", "C06", "C10", "C11"):
@@ -12,8 +12,10 @@ for _p in ("C15", "C16"):
 
 CHECKS["C12"] = checks_load.run
 CHECKS["C13"] = checks_conc.run
+CHECKS["C14"] = checks_hist.run
+CHECKS["C19"] = checks_env.run
 CHECKS["C20"] = checks_conc.run
 for _p in ("C07", "C08", "C09", "C18"):
     CHECKS[_p] = checks_fmt.run
 
-PREBUILD = [("asan", "concmon"), ("tsan", "concmon"), ("asan", "fmtmon"), ("asan", "loadmon"), ("pat", "loadmon"), ("zero", "loadmon"), ("asan", "zonemon"), ("asan", "civilmon"), ("asan", "fixedmon"), ("asan", "posixmon")]
+PREBUILD = [("asan", "envprobe"), ("asan", "histmon"), ("asan", "concmon"), ("tsan", "concmon"), ("asan", "fmtmon"), ("asan", "loadmon"), ("pat", "loadmon"), ("zero", "loadmon"), ("asan", "zonemon"), ("asan", "civilmon"), ("asan", "fixedmon"), ("asan", "posixmon")]
